@@ -6,10 +6,13 @@
    asmjit/support/arenahash.cpp on every run (VerifGen.C15Tables).
 
    full     : C15_vec_step_atomic, C15_vec_ok_is_failure_free, C15_vec_run_failed_ops_vanish, C15_reserve_gives_capacity,
-              C15_hash_step_atomic, C15_hash_get_exact, C15_hash_rehash_benign, C15_hash_tables_wellformed,
-              C15_pool_add_failure_keeps_constants, C15_pool_add_ok_findable_and_stable,
-              C15_holder_step_atomic, C15_holder_ok_is_failure_free, C15_holder_run_failed_ops_vanish
-   refuted  : C15_embed_label_pinned_refuted, C15_embed_delta_pinned_refuted  (the pinned code before fixes/C15-stale-reloc.patch)
+              C15_hash_step_atomic, C15_hash_get_exact, C15_hash_rehash_benign, C15_hash_tables_wellformed, C15_hash_calc_mod_exact,
+              C15_pool_add_failure_keeps_constants, C15_pool_add_ok_findable_and_stable, C15_pool_run_offsets_stable,
+              C15_holder_step_atomic, C15_holder_ok_is_failure_free, C15_holder_run_failed_ops_vanish,
+              C15_holder2_step_atomic, C15_holder2_run_failed_ops_vanish (sections, address table, call imm),
+              C15_builder_step_atomic (Builder label/section/instruction nodes)
+   refuted  : C15_embed_label_pinned_refuted, C15_embed_delta_pinned_refuted, C15_call_abs_pinned_refuted (the code before C15-stale-reloc)
+              C15_add_address_lazy_section_refuted (the lazily created .addrtab section survives a failed add - benign)
               C15_pool_add_size_atomic_refuted, C15_pool_add_ok_not_failure_free_refuted (ConstPool::add is atomic only in its
               constants, not in its size / gap bookkeeping - by design of the code, see design/C15.md) *)
 From Coq Require Import ZArith List Bool Lia Permutation.
@@ -63,9 +66,19 @@ Print Assumptions C15_reserve_gives_capacity.
 (* ------------------------------------------------------------------------------------------------------------ ArenaHash *)
 
 Theorem C15_hash_tables_wellformed :
-  Forall (fun p => 0 < p) hash_primes /\ forallb rcp_row_ok hash_rcp_rows = true.
-Proof. exact (conj (primes_pos_of_forallb hash_primes hash_primes_positive) hash_rcp_rows_ok). Qed.
+  Forall (fun p => 0 < p) hash_primes /\ map (fun row : Z * Z * Z => fst (fst row)) hash_rcp_rows = hash_primes.
+Proof. exact (conj (primes_pos_of_forallb hash_primes hash_primes_positive) hash_rows_primes). Qed.
 Print Assumptions C15_hash_tables_wellformed.
+
+(* ArenaHashBase::_calc_mod (multiply by the reciprocal, shift, multiply back, subtract - with the uint64/uint32 wrap-around of
+   the C++ code) is the mathematical remainder for EVERY row of the generated table and EVERY 32-bit hash code: this is what
+   lets the hash model use `key mod n`. *)
+Theorem C15_hash_calc_mod_exact :
+  forall p r s h : Z, In (p, r, s) hash_rcp_rows -> 0 <= h < 2 ^ 32 -> calc_mod32 p r s h = h mod p.
+Proof.
+  exact (fun p r s h HI Hh => calc_mod32_correct p r s h (proj1 (forallb_forall rcp_row_exact hash_rcp_rows) hash_rcp_rows_exact (p, r, s) HI) Hh).
+Qed.
+Print Assumptions C15_hash_calc_mod_exact.
 
 (* insert = node allocation + _insert (+ possibly a rehash), remove: under every oracle a step that does not report success
    leaves the table untouched, a successful one adds / removes exactly one occurrence of the key - whether or not the rehash
@@ -126,6 +139,18 @@ Proof.
 Qed.
 Print Assumptions C15_pool_add_ok_findable_and_stable.
 
+(* Whole scripts of adds under any oracle: every constant whose add() reported success is found at exactly the offset it was
+   given at the end of the run, and what was in the pool before keeps its offset. *)
+Theorem C15_pool_run_offsets_stable :
+  forall (ok : nat -> bool) (ds : list (list Z)) (p : pool) (k : nat) (rs : list (result * option Z)) (p' : pool) (k' : nat),
+    length (p_trees p) = index_count ->
+    pool_run ok ds p k = (rs, p', k') ->
+    length (p_trees p') = index_count /\
+    (forall d0 o0, pool_lookup p d0 = Some o0 -> pool_lookup p' d0 = Some o0) /\
+    (forall i d off, nth_error ds i = Some d -> nth_error rs i = Some (Ok, Some off) -> pool_lookup p' d = Some off).
+Proof. exact pool_run_offsets_stable. Qed.
+Print Assumptions C15_pool_run_offsets_stable.
+
 Example C15_pool_add_ok_satisfiable : length (p_trees pool_empty) = index_count.
 Proof. exact pool_empty_trees. Qed.
 
@@ -181,3 +206,66 @@ Theorem C15_embed_delta_pinned_refuted :
   exists ok h, let '(r, h', _) := holder_step ok false CEmbedDelta h 0 in r = Oom /\ holder_content h' <> holder_content h.
 Proof. exact embed_delta_pinned_refuted. Qed.
 Print Assumptions C15_embed_delta_pinned_refuted.
+
+(* ------------------------------------------------------------------------------- CodeHolder: sections and address table *)
+
+(* new_section, add_address_to_address_table, x86 `call/jmp imm64` (relocation + address-table entry, with C15-stale-reloc) and
+   all operations of the previous block on the combined state: under every oracle a step refines the oracle-free holder2_spec;
+   an operation that reports kOutOfMemory leaves labels, fixups, relocations, sections and address entries untouched - except
+   that the address-table section, which is created on first use, may already exist (lazy_addrtab). *)
+Theorem C15_holder2_step_atomic :
+  forall (ok : nat -> bool) (op : cop2) (h : holder2) (k : nat) (r : result) (h' : holder2) (k' : nat),
+    holder2_step ok true op h k = (r, h', k') ->
+    match r with
+    | Ok => holder2_spec op (holder2_content h) = Some (holder2_content h')
+    | Oom => fst (holder2_content h') = fst (holder2_content h) /\
+             (snd (holder2_content h') = snd (holder2_content h) \/ snd (holder2_content h') = lazy_addrtab (snd (holder2_content h)))
+    | Invalid => holder2_content h' = holder2_content h /\ holder2_spec op (holder2_content h) = None
+    end.
+Proof. exact holder2_step_refines. Qed.
+Print Assumptions C15_holder2_step_atomic.
+
+Theorem C15_holder2_run_failed_ops_vanish :
+  forall (ok : nat -> bool) (ops : list cop2) (h : holder2) (k : nat) (rs : list result) (h' : holder2) (k' : nat),
+    holder2_run ok true ops h k = (rs, h', k') ->
+    In (holder2_content h') (holder2_replay ops rs (holder2_content h)) /\ length rs = length ops.
+Proof. exact holder2_run_failed_ops_vanish. Qed.
+Print Assumptions C15_holder2_run_failed_ops_vanish.
+
+(* pinned x86 jmp/call imm (before C15-stale-reloc): the relocation entry stays when the address-table allocation fails *)
+Theorem C15_call_abs_pinned_refuted :
+  exists ok h, let '(r, h', _) := holder2_step ok false (CCallAbs 4096) h 0 in
+               r = Oom /\ fst (holder2_content h') <> fst (holder2_content h).
+Proof. exact call_abs_pinned_refuted. Qed.
+Print Assumptions C15_call_abs_pinned_refuted.
+
+(* strict atomicity of add_address_to_address_table in the section list does not hold: the empty .addrtab section stays *)
+Theorem C15_add_address_lazy_section_refuted :
+  exists ok h, let '(r, h', _) := holder2_step ok true (CAddAddress 4096) h 0 in
+               r = Oom /\ snd (holder2_content h') <> snd (holder2_content h) /\ snd (holder2_content h') = lazy_addrtab (snd (holder2_content h)).
+Proof. exact add_address_lazy_section_refuted. Qed.
+Print Assumptions C15_add_address_lazy_section_refuted.
+
+(* ------------------------------------------------------------------------------------------- BaseBuilder node creation *)
+
+(* new_label (CodeHolder label + label node), bind (label_node_of + add_node), section (section_node_of + activation), an
+   instruction node: under every oracle a step that does not report success leaves the node list, the cursor and the set of bound
+   labels untouched (and, for kOutOfMemory, every label/section keeps exactly the node it had); the holder is untouched except
+   that a failed new_label may leave an ORPHAN label behind (CodeHolder::new_label_id had succeeded; no node refers to it).  A
+   successful step has the oracle-free effect bld_spec on the node list. *)
+Theorem C15_builder_step_atomic :
+  forall (ok : nat -> bool) (op : bop) (h : holder2) (b : bld) (k : nat) (r : result) (h' : holder2) (b' : bld) (k' : nat),
+    builder_step ok op h b k = (r, h', b', k') ->
+    (r <> Ok ->
+       bld_list b' = bld_list b /\ h2_sects h' = h2_sects h /\
+       (holder_content (h2_base h') = holder_content (h2_base h) \/
+        (op = BNewLabel /\ holder_content (h2_base h') = (ho_labels (h2_base h) ++ [mklabel false []], ho_relocs (h2_base h), ho_unresolved (h2_base h))))) /\
+    (r = Oom -> same_nodes (b_lnodes b) (b_lnodes b') /\ same_nodes (b_snodes b) (b_snodes b')) /\
+    (r = Ok ->
+       bld_list b' = bld_spec op (bld_list b) /\ h2_sects h' = h2_sects h /\
+       match op with
+       | BNewLabel => holder_content (h2_base h') = (ho_labels (h2_base h) ++ [mklabel false []], ho_relocs (h2_base h), ho_unresolved (h2_base h))
+       | _ => h' = h
+       end).
+Proof. exact builder_step_atomic. Qed.
+Print Assumptions C15_builder_step_atomic.
